@@ -218,6 +218,32 @@ def _run_chain(case, out):
             except Exception as e:
                 out.violate("vectorised chain rule raised", error=repr(e), x=x, leading=ny)
                 got2 = np.full((m, m), np.nan)
+            # other memory layouts of the same vectorised call: Fortran order (contiguous columns), a single
+            # column, a column view of a wider array; each evaluated twice on the SAME argument objects
+            Xfull = np.tile(x.reshape((-1, 1)), (1, m))
+            layouts = [("F", np.asfortranarray(E.T.copy()), np.asfortranarray(Xfull.copy()))]
+            for kcol in (0, m - 1):
+                layouts.append((f"col{kcol}", E.T[:, kcol : kcol + 1].copy(), x.reshape((-1, 1)).copy()))
+            wide = np.asfortranarray(np.hstack([E.T, E.T]))
+            layouts.append(("view", wide[:, m:], np.asfortranarray(Xfull.copy())))
+            for lname, dfa, xa in layouts:
+                ref = dfa.copy()
+                try:
+                    r1 = chain(dfa, xa)
+                    r2 = chain(dfa, xa)
+                    cols = [int(lname[3:])] if lname.startswith("col") else list(range(m))
+                    want = exp[cols].T
+                    okl = (np.array_equal(dfa, ref) and r1.shape == want.shape
+                           and np.all(np.abs(r1 - want) <= 1e-12 * max(1.0, np.abs(Jf).max())) and np.array_equal(r1, r2))
+                    if not okl:
+                        out.violate("chain rule on a %s argument: input modified, or a repeated call differs" % lname,
+                                    x=x, leading=ny, argument_before=ref, argument_after=dfa, first=r1, second=r2)
+                        out.ev("VIOLATION")
+                    else:
+                        out.ev(f"chain{n}/layout-{lname[:3]}/lead{ny}", (tuple(x), ny, lname))
+                except Exception as e:
+                    out.violate("chain rule raised", error=repr(e), x=x, leading=ny, layout=lname)
+                    out.ev("VIOLATION")
             tol = 1e-12 * max(1.0, np.abs(Jf).max())
             for how, got in (("single", got1), ("batch", got2)):
                 for k in range(m):
